@@ -21,3 +21,13 @@ void _ZdlPv(uint8_t* p) { if (p) ir_live_allocs--; free(p); }
 void _ZdaPv(uint8_t* p) { if (p) ir_live_allocs--; free(p); }
 void _ZdlPvm(uint8_t* p, uint64_t n) { if (p) ir_live_allocs--; free(p); }
 void _ZdaPvm(uint8_t* p, uint64_t n) { if (p) ir_live_allocs--; free(p); }
+/* libc byte/string functions as plain loops over unsigned char (ISO C semantics) */
+uint32_t ir_memcmp(uint8_t* a, uint8_t* b, uint64_t n)
+{ for (uint64_t i = 0; i < n; i++) if (a[i] != b[i]) return a[i] < b[i] ? (uint32_t)-1 : 1u; return 0; }
+uint32_t ir_strncmp(uint8_t* a, uint8_t* b, uint64_t n)
+{ for (uint64_t i = 0; i < n; i++) { if (a[i] != b[i]) return a[i] < b[i] ? (uint32_t)-1 : 1u; if (a[i] == 0) return 0; } return 0; }
+uint32_t ir_strcmp(uint8_t* a, uint8_t* b)
+{ for (uint64_t i = 0;; i++) { if (a[i] != b[i]) return a[i] < b[i] ? (uint32_t)-1 : 1u; if (a[i] == 0) return 0; } }
+uint64_t ir_strlen(uint8_t* s) { uint64_t n = 0; while (s[n] != 0) n++; return n; }
+uint8_t* ir_memchr(uint8_t* s, uint32_t c, uint64_t n)
+{ for (uint64_t i = 0; i < n; i++) if (s[i] == (uint8_t)c) return s + i; return 0; }
